@@ -75,31 +75,4 @@ pub fn error_line<E>(w: &Out, e: &E) -> std::io::Result<()> { unimplemented!() }
 pub struct StdinFactory<R> { _p: std::marker::PhantomData<R> }
 }
 
-// ---- `.iter().enumerate()` (rewrite `enumerate`): own iterator type, since vstd has no specification for Enumerate ----
-pub mod vit {
-use vstd::prelude::*;
-use vstd::std_specs::iter::IteratorSpec;
-#[verifier::external_body]
-#[verifier::reject_recursive_types(I)]
-pub struct VEnumerate<I> { _p: std::marker::PhantomData<I> }
-impl<I: Iterator> Iterator for VEnumerate<I> {
-    type Item = (usize, I::Item);
-    #[verifier::external_body]
-    fn next(&mut self) -> Option<(usize, I::Item)> { unimplemented!() }
-}
-impl<I: Iterator> vstd::std_specs::iter::IteratorSpecImpl for VEnumerate<I> {
-    open spec fn obeys_prophetic_iter_laws(&self) -> bool { true }
-    #[verifier::prophetic]
-    uninterp spec fn remaining(&self) -> Seq<(usize, I::Item)>;
-    #[verifier::prophetic]
-    open spec fn will_return_none(&self) -> bool { true }
-    uninterp spec fn decrease(&self) -> Option<nat>;
-    uninterp spec fn peek(&self, i: int) -> Option<(usize, I::Item)>;
-}
-#[verifier::external_body]
-pub fn venumerate<I: Iterator>(it: I) -> (r: VEnumerate<I>)
-    requires it.obeys_prophetic_iter_laws(), it.decrease() is Some,
-    ensures r.decrease() is Some, r.remaining().len() == it.remaining().len(),
-        forall|j: int| 0 <= j < r.remaining().len() ==> (#[trigger] r.remaining()[j]).0 == j && r.remaining()[j].1 == it.remaining()[j],
-{ unimplemented!() }
-}
+//@@ include prelude/vit.rs
